@@ -21,8 +21,9 @@ MANIFEST = dict(
           'words; literal priority, catch-all last, two-tier || levels, word-break stripping; answer = (required, allowed)). '
           'Proved in Coq (Props/C01.v): the residual step is sound and complete for an inductive denotation of expressions over '
           'item sequences, matching does not depend on || levels (|| -> | leaves `matched` unchanged), every offered candidate '
-          'carries one level (the lowest that has a candidate extending the prefix) and extends the typed prefix, and the '
-          'word-break stripping lemmas. The full statement C01_bash_meaning (BashSem.run = Meaning.complete outside the known '
+          'carries one level (the lowest that has a candidate extending the prefix) and extends the typed prefix, the '
+          'word-break stripping lemmas, and the decided domain C01_domain implies its declarative reading at every point the '
+          'specification visits (C01_domain_sound, C01_domain_along_runs). The full statement C01_bash_meaning (BashSem.run = Meaning.complete outside the known '
           'mechanisms) is stated over an abstract interpreter of the script and is NOT proved here (it needs Model/BashSem.v of '
           'another work package). The implementation is judged directly: the extracted Meaning.complete against the emitted '
           'script in real bash 5.2 on generated grammars inside the decided domain C01_domain (exhaustive small trees + seeded '
